@@ -240,8 +240,13 @@ func checkC08(c c08Case) error {
 		if r.Heredoc == nil || r.Delim == nil {
 			return fmt.Errorf("%s: no body / delimiter attached\nsrc: %q", where, c.Src)
 		}
-		if got := respell(r.Heredoc); got != h.Body {
-			return fmt.Errorf("%s: body %q, want %q\nsrc: %q", where, got, h.Body, c.Src)
+		wantBody := h.Body
+		if !h.Quoted {
+			// in an expanding here-document a backslash-newline is a line continuation
+			wantBody = strings.ReplaceAll(wantBody, "cont\\\n", "cont")
+		}
+		if got := respell(r.Heredoc); got != wantBody {
+			return fmt.Errorf("%s: body %q, want %q\nsrc: %q", where, got, wantBody, c.Src)
 		}
 		if got := respell(r.Delim); got != h.Delim || !literalOnly(r.Delim) {
 			return fmt.Errorf("%s: delimiter line %q, want %q\nsrc: %q", where, got, h.Delim, c.Src)
